@@ -137,7 +137,10 @@ ALT_SCHEMA = f'''<xs:schema {XS}>
  <xs:element name="item" type="ItemT"><xs:alternative test="@kind = 'num'" type="NUM"/><xs:alternative test="@lang = 'fr'" type="FR"/><xs:alternative test="@lang = 'en'" type="EN"/></xs:element>
  <xs:complexType name="Sec"><xs:choice minOccurs="0" maxOccurs="unbounded"><xs:element ref="item"/><xs:element name="section" type="Sec"/></xs:choice>
    <xs:attribute name="lang" type="xs:string" inheritable="true"/></xs:complexType>
- <xs:element name="doc" type="Sec"/></xs:schema>'''
+ <xs:element name="doc" type="Sec"/>
+ <xs:element name="own" type="ItemT"><xs:alternative test="@kind = 'plain'" type="ItemT"/><xs:alternative test="@kind" type="NUM"/><xs:alternative type="EN"/></xs:element>
+ <xs:element name="own2" type="ItemT"><xs:alternative test="@kind = 'num'" type="NUM"/><xs:alternative test="@kind" type="ItemT"/><xs:alternative type="FR"/></xs:element>
+</xs:schema>'''
 
 
 def alt_docs():
@@ -163,6 +166,15 @@ def alt_docs():
                     kids = [[sec, it], [it, sec], [sec, it, ('section', None, [item(t2)])]][order]
                     d = ('doc', l0, kids)
                     yield render(d), ok(d, None)
+    # a type table whose alternatives name the DECLARED type of the element (first / in the middle), before a later alternative whose test also holds and a default one:
+    # the first alternative whose test holds decides, also when it selects the type the element has anyway
+    for text in ('anything', '12', 'hello', 'bonjour'):
+        yield f'<own kind="plain">{text}</own>', True
+        yield f'<own kind="x">{text}</own>', text.isdigit()
+        yield f'<own>{text}</own>', text == 'hello'
+        yield f'<own2 kind="num">{text}</own2>', text.isdigit()
+        yield f'<own2 kind="x">{text}</own2>', True
+        yield f'<own2>{text}</own2>', text == 'bonjour'
 
 
 def eval_alt(args):
